@@ -53,6 +53,8 @@ def run(tier):
     trs = corpus.get(tier)
     done = corpus.completed(trs)
     corpus.validate_property(rep, "C13", done, need=("repopulated", "rounds_2plus"))
+    from .. import drv_scripts
+    drv_scripts.validate(rep, "C13", tier)          # (C) every phase boundary of every scripted run
     rep.cov["distinct_nontrivial"] = len({(tuple(t["init"]), tuple(e["op"] for e in t["events"])) for t in traces
                                           if len(t["events"]) >= 3})
     rep.cov["rule"] = ("seeded random sequences (3..8 operations) of assign-labels / shallow copy / deep copy / the four real "
